@@ -82,6 +82,7 @@ Definition judge (c : sx) : sx :=
     else if occurs_elem_in_union t then Some 2
     else if odo_in_table t then Some 3
     else if dup_union_name t then Some 4
+    else if chained_redef t then Some 5
     else None in
   let branch := 1 + (if has_odo t then 1 else 0) + (if has_redef t then 2 else 0) + (if has_table t then 4 else 0) in
   verdict known good agree branch
